@@ -98,17 +98,20 @@ def _full_batches(dom):
     """Exhaustive 2^32 sweeps for the thorough tier, in priority order.  -> [(name, [(s,t,n,d)...])]"""
     ds = set(dom)
     ints = core.I8
+    i32 = ("int32_t", "uint32_t")
     b = []
-    b.append(("float(all 2^32 bit patterns) -> integral targets, factor 1",
+    b.append(("float (all 2^32 bit patterns) -> every integral target, factor 1",
               [("float", t, 1, 1) for t in ints]))
-    b.append(("int32_t/uint32_t (all 2^32 values) -> every target, factor 1",
-              [(s, t, 1, 1) for s in ("int32_t", "uint32_t") for t in core.R11]))
-    b.append(("float(all 2^32 bit patterns) -> 32/64-bit integral targets, factors 2, 1/2, 3, 1/3",
-              [("float", t, n, d) for (n, d) in ((2, 1), (1, 2), (3, 1), (1, 3))
+    b.append(("int32_t/uint32_t (all 2^32 values) -> every integral target, factor 1",
+              [(s, t, 1, 1) for t in ints for s in i32]))
+    b.append(("float (all 2^32 bit patterns) -> 32/64-bit integral targets, factors 2 and 1/2",
+              [("float", t, n, d) for (n, d) in ((2, 1), (1, 2))
                for t in ("int32_t", "uint32_t", "int64_t", "uint64_t")]))
-    b.append(("int32_t/uint32_t (all 2^32 values) -> integral targets, factors 2, 1/2, 3/2, 2/3, 1000, 1/1000",
-              [(s, t, n, d) for (n, d) in ((2, 1), (1, 2), (3, 2), (2, 3), (1000, 1), (1, 1000))
-               for s in ("int32_t", "uint32_t") for t in ints]))
+    b.append(("int32_t/uint32_t (all 2^32 values) -> every floating target, factor 1",
+              [(s, t, 1, 1) for t in core.F3 for s in i32]))
+    b.append(("int32_t/uint32_t (all 2^32 values) -> 8/32-bit integral targets, factors 3/2 and 2/3",
+              [(s, t, n, d) for (n, d) in ((3, 2), (2, 3)) for t in ("int8_t", "uint8_t", "int32_t", "uint32_t")
+               for s in i32]))
     return [(name, [x for x in lst if x in ds]) for name, lst in b]
 
 
@@ -224,44 +227,64 @@ def check(run):
                               % (121 - len(pairs)))
     insts, jobs, radius = _jobs(dom, tier)
     stats, viols = [], []
-    for cfg, san, opt, name in ((gcfg, False, gopt, "g++ %s" % gopt), (ccfg, True, copt, "clang++ %s ubsan" % copt)):
-        s, v = sw.build_and_run(run, cfg, "main_" + cfg.name, insts, jobs, san, ntu=4 * core.NCPU, opt=opt)
+    # The clang UBSan build (decides and observes) covers every instance in both tiers.  The second
+    # compiler covers every instance in thorough and a stratified third in quick ((pair + factor) % 3
+    # == 0: every rep pair keeps 4-5 factors, every factor about 40 pairs) -- per-instance template
+    # instantiation (0.1 s per instance and build) dominates the quick tier's cost.
+    pidx = {(s, t): i for i, (s, t) in enumerate((s, t) for s in core.R11 for t in core.R11)}
+    fidx = {f: i for i, f in enumerate(m.FACTORS)}
+    second = [j for j in jobs if tier == "thorough" or
+              (pidx[insts[j[0]][0], insts[j[0]][1]] + fidx[insts[j[0]][3], insts[j[0]][4]]) % 3 == 0]
+    for cfg, san, opt, name, jl in ((ccfg, True, copt, "clang++ %s ubsan" % copt, jobs),
+                                    (gcfg, False, gopt, "g++ %s" % gopt, second)):
+        s, v = sw.build_and_run(run, cfg, "main_" + cfg.name, insts, jl, san, ntu=4 * core.NCPU, opt=opt)
         stats += [dict(x, build=name) for x in s]
         viols += [dict(x, build=name) for x in v]
         phases["sweep " + name] = round(run.elapsed(), 1)
 
     full_done, full_skipped = [], []
     if tier == "thorough":
-        per_sweep = 60.0   # core-seconds, first guess; re-measured after every batch
         base = 100000
+        wave_n = max(2, core.NCPU // 4)   # instances per wave: 16 range chunks each
         for name, lst in _full_batches(dom):
-            if not lst:
-                continue
-            left = min(run.time_left(), SOFT_THOROUGH_BUDGET - run.elapsed())
-            need = per_sweep * len(lst) / max(1, core.NCPU // 2) * 1.3 + 60
-            if left < need:
-                full_skipped.append({"batch": name, "instances": len(lst),
-                                     "reason": "deadline guard: %.0fs left, about %.0fs needed" % (left, need)})
-                continue
-            t0 = time.time()
-            finsts, fjobs = _full_jobs(lst, base, chunks=16)
-            base += len(lst)
-            s, v = sw.build_and_run(run, ccfg, "full%d" % base, finsts, fjobs, True, ntu=len(lst), opt="-O2",
-                                    parts_per_bin=16)
-            stats += [dict(x, build="clang++ -O2 ubsan full") for x in s]
-            viols += [dict(x, build="clang++ -O2 ubsan full") for x in v]
-            insts.update(finsts)
-            wall = time.time() - t0
-            per_sweep = max(10.0, wall * min(core.NCPU, 16 * len(lst)) / len(lst))
-            full_done.append({"batch": name, "instances": len(lst), "values_each": 2 ** 32,
-                              "wall_s": round(wall, 1)})
+            done, wall_prev, t_batch, why = 0, None, time.time(), None
+            for w in range(0, len(lst), wave_n):
+                wave = lst[w:w + wave_n]
+                left = min(run.time_left(), SOFT_THOROUGH_BUDGET - run.elapsed())
+                need = (wall_prev * len(wave) / wave_n * 1.25 + 20) if wall_prev else 150.0
+                if left < need:
+                    why = "deadline guard: %.0fs left, about %.0fs needed for the next wave" % (left, need)
+                    break
+                t0 = time.time()
+                finsts, fjobs = _full_jobs(wave, base, chunks=16)
+                base += len(wave)
+                try:
+                    s, v = sw.build_and_run(run, ccfg, "full%d" % base, finsts, fjobs, True, ntu=len(wave),
+                                            opt="-O2", parts_per_bin=16, timeout=max(30, int(left - 15)),
+                                            soft=True)
+                except sw.SoftTimeout:
+                    why = "deadline guard: wave stopped after %.0fs (results of the wave discarded)" % (
+                        time.time() - t0)
+                    break
+                stats += [dict(x, build="clang++ -O2 ubsan full") for x in s]
+                viols += [dict(x, build="clang++ -O2 ubsan full") for x in v]
+                insts.update(finsts)
+                wall_prev = (time.time() - t0) * wave_n / len(wave)
+                done += len(wave)
+            if done:
+                full_done.append({"batch": name, "instances_completed": ["%s->%s x%s/%s" % x for x in lst[:done]],
+                                  "values_each": 2 ** 32, "wall_s": round(time.time() - t_batch, 1)})
+            if done < len(lst):
+                full_skipped.append({"batch": name, "instances_not_run": ["%s->%s x%s/%s" % x for x in lst[done:]],
+                                     "reason": why})
+        phases["full sweeps"] = round(run.elapsed(), 1)
 
     stats = _merge_stats(stats)
     if any(s["evals"] == 0 for s in stats):
         raise core.InfraError("vacuous instances: %s" % [s for s in stats if s["evals"] == 0][:3])
     nkeys = _report(run, viols)
 
-    main = [s for s in stats if s["build"].startswith("g++")]
+    main = [s for s in stats if s["build"].startswith("clang") and not s["build"].endswith("full")]
     cat = {}
     for s in main:
         c = cat.setdefault(m.category(s["S"], s["T"]), {"instances": 0, "values": 0, "lossy": 0, "cleared": 0,
@@ -306,6 +329,7 @@ def check(run):
         "violation_events_by_kind": kinds, "distinct_violation_keys": nkeys,
         "full_2pow32_batches": full_done, "full_2pow32_batches_skipped": full_skipped,
         "builds": sorted({s["build"] for s in stats}), "phase_end_wall_s": phases,
+        "instances_second_compiler": len(second),
         "samples": [{"S": s["S"], "T": s["T"], "C": s["C"], "factor": "%s/%s" % (s["N"], s["D"]),
                      "values": s["evals"], "lossy": s["lossy"], "cleared_and_executed": s["exec"],
                      "first_cleared_value": s["first_cleared"], "first_lossy_value": s["first_lossy"]}
